@@ -71,6 +71,22 @@ class AG:
         return self.g
 
 
+class Hostile:
+    def __call__(self, *a, **k):
+        raise AttributeError("'NoneType' object has no attribute 'errisinstance'")
+
+    def __bool__(self):
+        raise ValueError("the truth value of this object is ambiguous")
+
+    def __eq__(self, other):
+        raise ValueError("not comparable")
+
+    __hash__ = None
+
+
+HOSTILE = Hostile()
+
+
 class B:
     """one built chain"""
 
@@ -82,9 +98,15 @@ class B:
         self.leaf = None
         self.log = []
         self.keep = []
+        self.salt = 0
 
     def k(self, i):
         return self.chain[i - 1]["k"]
+
+    def tbh(self, i):
+        """what link i keeps in a local called __tracebackhide__: nothing / True / False / an object that cannot be
+        called or tested (pytest also accepts a predicate there; the frames of the chain do not depend on any of it)"""
+        return (None, True, False, HOSTILE)[(self.salt + i) % 4]
 
     def is_last(self, i):
         return i == self.n
@@ -160,6 +182,9 @@ class B:
 
 async def coro_link(b, i):
     try:
+        _h = b.tbh(i)
+        if _h is not None:
+            __tracebackhide__ = _h  # noqa: F841
         m = b.mode(i)
         if m == "done":
             return 7
@@ -194,6 +219,9 @@ async def coro_link(b, i):
 @types.coroutine
 def gcoro_link(b, i):
     try:
+        _h = b.tbh(i)
+        if _h is not None:
+            __tracebackhide__ = _h  # noqa: F841
         m = b.mode(i)
         if m == "done":
             return 7
@@ -212,6 +240,9 @@ def gcoro_link(b, i):
 
 def gen_link(b, i):
     try:
+        _h = b.tbh(i)
+        if _h is not None:
+            __tracebackhide__ = _h  # noqa: F841
         m = b.mode(i)
         if m == "done":
             return 7
@@ -230,6 +261,9 @@ def gen_link(b, i):
 
 async def agen_link(b, i):
     try:
+        _h = b.tbh(i)
+        if _h is not None:
+            __tracebackhide__ = _h  # noqa: F841
         via = b.chain[i - 1]["via"]
         if via in ("athrow", "aclose"):
             try:
@@ -348,6 +382,7 @@ def code_name(k):
 def run_chain(case, rec):
     chain, term = case["chain"], case["term"]
     b = B(chain, term)
+    b.salt = case.get("salt", 0)
     b.rec = rec
     bad = []
     if term == "run":
@@ -830,6 +865,7 @@ def main():
     with warnings.catch_warnings():
         warnings.simplefilter("ignore", RuntimeWarning)
         for idx, case in enumerate(data["cases"]):
+            case["salt"] = idx
             try:
                 pollute_history(1)          # right before every chain is built (see pollute_history)
                 rec.take()                  # the recordings of those extractions are not this chain's
